@@ -1,33 +1,67 @@
-// Package vhttp mirrors the part of net/http that internal/upload uses
-// (http.Post and the response's status) on top of the deterministic
-// scheduler: the request is a yield point, then the harness's scripted
-// server decides the outcome (a status code, or no answer = transport
-// error) and the request is recorded in the server's log.  No network.
+// Package vhttp mirrors the client side of net/http for internal/upload on
+// top of the deterministic scheduler: sending a request (http.Post, Get,
+// Head, PostForm, Client.Do and the Client methods) is a yield point, then
+// the harness's scripted server decides the outcome (a status code, or no
+// answer = transport error) and the request is recorded in the server's log.
+// No network.  Request / Response / Header are the real net/http types, so a
+// refactoring that builds requests by hand still goes through the shim.
 package vhttp
 
 import (
+	"context"
 	"errors"
 	"fmt"
 	"io"
+	"net/http"
+	"net/url"
 	"strings"
+	"time"
 
 	"golang.org/x/telemetry/internal/verifh/shim/vsched"
 )
 
 const (
-	StatusOK                  = 200
-	StatusBadRequest          = 400
-	StatusInternalServerError = 500
+	StatusOK                  = http.StatusOK
+	StatusCreated             = http.StatusCreated
+	StatusAccepted            = http.StatusAccepted
+	StatusNoContent           = http.StatusNoContent
+	StatusMovedPermanently    = http.StatusMovedPermanently
+	StatusFound               = http.StatusFound
+	StatusBadRequest          = http.StatusBadRequest
+	StatusUnauthorized        = http.StatusUnauthorized
+	StatusForbidden           = http.StatusForbidden
+	StatusNotFound            = http.StatusNotFound
+	StatusRequestTimeout      = http.StatusRequestTimeout
+	StatusTooManyRequests     = http.StatusTooManyRequests
+	StatusInternalServerError = http.StatusInternalServerError
+	StatusBadGateway          = http.StatusBadGateway
+	StatusServiceUnavailable  = http.StatusServiceUnavailable
+	StatusGatewayTimeout      = http.StatusGatewayTimeout
+
+	MethodGet  = http.MethodGet
+	MethodHead = http.MethodHead
+	MethodPost = http.MethodPost
+	MethodPut  = http.MethodPut
 )
 
-type Response struct {
-	Status     string
-	StatusCode int
-	Body       io.ReadCloser
-}
+type (
+	Response     = http.Response
+	Request      = http.Request
+	Header       = http.Header
+	RoundTripper = http.RoundTripper
+	Transport    = http.Transport
+	Cookie       = http.Cookie
+)
 
-// Request is one entry of the server's log.
-type Request struct {
+var (
+	ErrUseLastResponse = http.ErrUseLastResponse
+	NoBody             = http.NoBody
+)
+
+func StatusText(code int) string { return http.StatusText(code) }
+
+// Logged is one entry of the server's log.
+type Logged struct {
 	URL         string
 	ContentType string
 	Body        []byte
@@ -38,30 +72,97 @@ type Request struct {
 // answer" (the client sees a transport error).
 var Server func(url string, body []byte) int
 
-var Log []Request
+var Log []Logged
 
 func Reset(server func(url string, body []byte) int) {
 	Server = server
 	Log = nil
 }
 
-func Post(url, contentType string, body io.Reader) (*Response, error) {
-	data, err := io.ReadAll(body)
-	if err != nil {
-		return nil, err
+func send(method, u, contentType string, data []byte, req *Request) (*Response, error) {
+	label := "Post " + u
+	if method != "POST" {
+		label = method + " " + u
 	}
-	vsched.Yield("Post "+url, 0)
+	vsched.Yield(label, 0)
 	status := 0
 	if Server != nil {
-		status = Server(url, data)
+		status = Server(u, data)
 	}
-	Log = append(Log, Request{url, contentType, data, status})
+	Log = append(Log, Logged{u, contentType, data, status})
 	if status == 0 {
 		return nil, errors.New("vhttp: no answer")
 	}
 	return &Response{
-		Status:     fmt.Sprintf("%d status", status),
+		Status:     fmt.Sprintf("%d %s", status, http.StatusText(status)),
 		StatusCode: status,
+		Proto:      "HTTP/1.1",
+		ProtoMajor: 1,
+		ProtoMinor: 1,
+		Header:     Header{},
 		Body:       io.NopCloser(strings.NewReader("")),
+		Request:    req,
 	}, nil
 }
+
+func Post(u, contentType string, body io.Reader) (*Response, error) {
+	var data []byte
+	if body != nil {
+		var err error
+		if data, err = io.ReadAll(body); err != nil {
+			return nil, err
+		}
+	}
+	return send("POST", u, contentType, data, nil)
+}
+
+func PostForm(u string, form url.Values) (*Response, error) {
+	return Post(u, "application/x-www-form-urlencoded", strings.NewReader(form.Encode()))
+}
+
+func Get(u string) (*Response, error)  { return send("GET", u, "", nil, nil) }
+func Head(u string) (*Response, error) { return send("HEAD", u, "", nil, nil) }
+
+func NewRequest(method, u string, body io.Reader) (*Request, error) {
+	return http.NewRequest(method, u, body)
+}
+
+func NewRequestWithContext(ctx context.Context, method, u string, body io.Reader) (*Request, error) {
+	return http.NewRequestWithContext(ctx, method, u, body)
+}
+
+// Client has the fields of http.Client that a caller may set; none of them
+// changes what the scripted server does.
+type Client struct {
+	Transport     RoundTripper
+	CheckRedirect func(req *Request, via []*Request) error
+	Jar           http.CookieJar
+	Timeout       time.Duration
+}
+
+var DefaultClient = &Client{}
+
+func (c *Client) Do(req *Request) (*Response, error) {
+	var data []byte
+	if req.Body != nil {
+		var err error
+		data, err = io.ReadAll(req.Body)
+		req.Body.Close()
+		if err != nil {
+			return nil, err
+		}
+	}
+	m := req.Method
+	if m == "" {
+		m = "GET"
+	}
+	return send(m, req.URL.String(), req.Header.Get("Content-Type"), data, req)
+}
+
+func (c *Client) Post(u, contentType string, body io.Reader) (*Response, error) {
+	return Post(u, contentType, body)
+}
+func (c *Client) PostForm(u string, form url.Values) (*Response, error) { return PostForm(u, form) }
+func (c *Client) Get(u string) (*Response, error)                       { return Get(u) }
+func (c *Client) Head(u string) (*Response, error)                      { return Head(u) }
+func (c *Client) CloseIdleConnections()                                 {}
